@@ -160,6 +160,11 @@ class C13(core.Check):
                         doc = doc[:k] + ins + doc[k:]
                 yield dict(fam='e2e', doc=doc, ml=ml, lines=[gen_line(rnd, doc) for _ in range(rnd.randint(1, 3))],
                            lang=rnd.choice(['en', 'en-GB', 'ru', None, 'de', '']))
+                if i % 96 == 11:
+                    # the rules in a file read by the command-line filter (layout of the file's end, line ends)
+                    yield dict(fam='file', doc=doc.replace('\\foreignlanguage{german}', ''),
+                               lines=[gen_line(rnd, doc) for _ in range(rnd.randint(1, 4))],
+                               end=rnd.choice(['nl', 'none', 'none', 'blank', 'crlf']))
                 continue
             t = gen_text(rnd)
             p = list(range(1000, 1000 + len(t)))
@@ -191,6 +196,8 @@ class C13(core.Check):
                             detail=dict(got=[at, list(ap)], want=[rt, rp], first_diff=i))
             return dict(ok=True, nt=nt, key=None, cnt=cnt,
                         obs={'out': tex.short(at, 80), 'map': list(ap)[:30]})
+        if case['fam'] == 'file':
+            return self.judge_file(case)
         # end to end
         doc, lines, ml, lang = case['doc'], case['lines'], case['ml'], case['lang']
         cnt = {'e2e_ml' if ml else 'e2e_single': 1}
@@ -226,9 +233,49 @@ class C13(core.Check):
             cnt['e2e_replaced'] = 1
         return dict(ok=True, nt=nt, key=None, cnt=cnt, obs={'out': tex.short(got, 120)})
 
+    def judge_file(self, case):
+        import os
+        import subprocess
+        import tempfile
+        from .. import env
+        doc, lines, end = case['doc'], case['lines'], case['end']
+        cnt = {'file_cases': 1, 'file_end_' + end: 1}
+        body = ''.join(lines)
+        if end == 'none':
+            body = body.rstrip('\n')
+            if not body.strip():
+                body = 'zzz & yyy'
+        elif end == 'blank':
+            body += '\n\n'
+        elif end == 'crlf':
+            body = body.replace('\n', '\r\n')
+        model_lines = body.splitlines()
+        with tempfile.TemporaryDirectory(prefix='yvm_c13_') as d:
+            with open(os.path.join(d, 'in.tex'), 'w', encoding='utf-8', newline='') as f:
+                f.write(doc)
+            with open(os.path.join(d, 'r.txt'), 'w', encoding='utf-8', newline='') as f:
+                f.write(body)
+            res = []
+            for extra in ([], ['--repl', 'r.txt']):
+                pr = subprocess.run([env.PY, '-m', 'yalafi', '--pack', '', '--nums', 'n.txt'] + extra + ['in.tex'],
+                                    capture_output=True, timeout=120, cwd=d, env=env.child_env())
+                if pr.returncode != 0:
+                    return dict(ok=False, nt=True, key='file:exit%d' % pr.returncode, cnt=cnt, obs=None,
+                                detail=dict(doc=doc, rules=body, stderr=pr.stderr.decode('utf-8', 'replace')[-600:]))
+                nums = [int(x.rstrip('+')) for x in open(os.path.join(d, 'n.txt')).read().split()]
+                res.append((pr.stdout.decode('utf-8'), nums))
+        (t0, p0), (t1, p1) = res
+        rt, rp, _ = ref_replace(t0, list(p0), [ln + '\n' for ln in model_lines])
+        if (t1, p1) != (rt, rp):
+            return dict(ok=False, nt=True, key='file:' + ('text' if t1 != rt else 'map'), cnt=cnt, obs=None,
+                        detail=dict(doc=doc, rules=body, got=[t1, p1], want=[rt, rp], end=end))
+        if rt != t0:
+            cnt['file_replaced'] = 1
+        return dict(ok=True, nt=rt != t0, key=None, cnt=cnt, obs=dict(rules=tex.short(body, 80), out=tex.short(t1, 80)))
+
     def quotas(self, tier):
         return {'rule_kind_shorter': 500, 'rule_kind_equal': 100, 'rule_kind_longer': 500,
-                'e2e_replaced': 100, 'e2e_ml_foreign_part_unchanged': 50}
+                'e2e_replaced': 100, 'e2e_ml_foreign_part_unchanged': 50, 'file_cases': 300, 'file_end_none': 80, 'file_replaced': 100}
 
 
 CHECK = C13
